@@ -1381,7 +1381,7 @@ theorem hincrby_happ :
   simp [(hashView_some hv).1]
 
 theorem run_hincrby_notint {er : Err} (hcur : Conv.int ((h.lookup f).getD (strBytes "0")) = .error er) :
-    (run "hincrby" ctx [key, f, nb] db).reply = .err (strBytes er) ∧
+    (run "hincrby" ctx [key, f, nb] db).reply = .err (strBytes Msgs.HASH_NOT_INT_MSG) ∧
     (run "hincrby" ctx [key, f, nb] db).db.live = db.live ∧
     (run "hincrby" ctx [key, f, nb] db).failed = true := by
   apply run1_err (sigOf "hincrby") Cmd.hincrby ctx _ _ _ key nd (hincrby_happ key f nb hv hnb)
@@ -1428,7 +1428,7 @@ include nd hv
 
 theorem run_hincrbyfloat_badcur {er : Err}
     (hcur : Conv.float ((h.lookup f).getD (strBytes "0")) = .error er) :
-    (run "hincrbyfloat" ctx [key, f, amt] db).reply = .err (strBytes er) ∧
+    (run "hincrbyfloat" ctx [key, f, amt] db).reply = .err (strBytes Msgs.HASH_NOT_FLOAT_MSG) ∧
     (run "hincrbyfloat" ctx [key, f, amt] db).db.live = db.live ∧
     (run "hincrbyfloat" ctx [key, f, amt] db).failed = true :=
   run_hash_err ctx key nd "hincrbyfloat" Cmd.hincrbyfloat 2 rfl (by decide) [f, amt]
@@ -1895,6 +1895,28 @@ theorem run_setValue0 (c0 : CI) (cs : List CI) (happ : applyL s raw db.live = .o
   rw [wb1_setValue]
   exact wbLive_clean _ _ (fun c hc => (hclean c hc).1)
 
+/-- a body that modifies the value of its first `CommandItem` in place (`item.update(v)`): the deadline stays -/
+theorem run_update0 (c0 : CI) (cs : List CI) (happ : applyL s raw db.live = .ok (.ok args (c0 :: cs)))
+    (h0 : notExp db.time c0.expireat)
+    (hclean : ∀ c ∈ cs, c.modified = false ∧ c.expMod = false ∧ notExp db.time c.expireat)
+    {r : Reply} {v : Value} (hb : body ctx args (c0 :: cs) = ret r (c0.update v :: cs)) :
+    (runRegular s body ctx none raw db).reply = r ∧
+    (runRegular s body ctx none raw db).db.live = putAt db.live c0.key v c0.expireat ∧
+    (runRegular s body ctx none raw db).failed = false := by
+  have := run_ok s body ctx _ nd happ hb (by
+    intro c hc
+    simp only [ret, List.mem_cons] at hc
+    rcases hc with rfl | hc
+    · exact ⟨CI.update_sound _ _, h0⟩
+    · have := hclean c hc
+      exact ⟨CI.Clean.sound ⟨this.1, this.2.1⟩, this.2.2⟩)
+  refine ⟨this.1, ?_, this.2.2⟩
+  rw [this.2.1]
+  simp only [ret, wbLive, List.foldl_cons]
+  have hu : wb1 db.live (c0.update v) = putAt db.live c0.key v c0.expireat := wb1_update db.live c0 v
+  rw [hu]
+  exact wbLive_clean _ _ (fun c hc => (hclean c hc).1)
+
 end multi
 
 theorem ciOf_cleanExp {db : Db} (nd : NodupKeys db.dict) (ty : Option Ty) (k : Bytes) :
@@ -1938,8 +1960,8 @@ theorem body_pfmerge (ctx : Ctx) (live : Live) (d : Bytes) (ks : List Bytes) :
     Cmd.pfmerge ctx ((List.range' 0 (d :: ks).length).map Arg.key)
         ((d :: ks).map (ciOf live (some .set))) =
       ret .ok
-        ((ciOf live (some .set) d).setValue
-            (some (.set (Cmd.calcSetop .union (setAt live d) (ks.map (setAt live))))) ::
+        ((ciOf live (some .set) d).update
+            (.set (Cmd.calcSetop .union (setAt live d) (ks.map (setAt live)))) ::
           ks.map (ciOf live (some .set))) := by
   have hr : List.range' 0 (d :: ks).length = 0 :: List.range' 1 ks.length := by
     simp [List.range'_succ]
@@ -2018,7 +2040,8 @@ theorem run_pfmerge (dst k : Bytes) (ks : List Bytes) :
     let out := run "pfmerge" ctx (dst :: k :: ks) db
     let ans := Cmd.calcSetop .union (setAt db.live dst) ((k :: ks).map (setAt db.live))
     if (dst :: k :: ks).all (typeOK db.live (some .set)) = true then
-      out.reply = .ok ∧ out.db.live = putAt db.live dst (.set ans) none ∧ out.failed = false
+      out.reply = .ok ∧
+      out.db.live = putAt db.live dst (.set ans) (ciOf db.live (some .set) dst).expireat ∧ out.failed = false
     else out.reply = .err (strBytes Msgs.WRONGTYPE_MSG) ∧ out.db.live = db.live ∧ out.failed = true := by
   intro out ans
   have har : ArityOK (sigOf "pfmerge") (dst :: k :: ks).length :=
@@ -2026,7 +2049,8 @@ theorem run_pfmerge (dst k : Bytes) (ks : List Bytes) :
   have happ := applyL_keys (sigOf "pfmerge") (some .set) 2 rfl rfl db.live (dst :: k :: ks) har
   by_cases hall : (dst :: k :: ks).all (typeOK db.live (some .set)) = true
   · rw [if_pos hall] at happ ⊢
-    have := run_setValue0 (sigOf "pfmerge") Cmd.pfmerge ctx _ _ nd _ _ happ (by
+    have := run_update0 (sigOf "pfmerge") Cmd.pfmerge ctx _ _ nd _ _ happ
+      (ciOf_notExp nd _ _) (by
       intro c hc
       obtain ⟨k', _, rfl⟩ := List.mem_map.1 hc
       exact ciOf_cleanExp nd _ _) (body_pfmerge ctx db.live dst (k :: ks))
@@ -2640,6 +2664,11 @@ theorem setValue_wf (c : CI) {s : List Bytes} (hs : s.Nodup) : CIWF (c.setValue 
   simp only [CI.setValue, Option.some.injEq] at hv
   subst hv; exact hs
 
+theorem update_wf (c : CI) {s : List Bytes} (hs : s.Nodup) : CIWF (c.update (.set s)) := by
+  intro v hv
+  simp only [CI.update, Option.some.injEq] at hv
+  subst hv; exact hs
+
 theorem ret_cis {r : Reply} {cs : List CI} {o : BodyOut} (h : ret r cs = .ok o) : o.cis = cs := by
   simp only [ret, Except.ok.injEq] at h
   rw [← h]
@@ -2809,7 +2838,7 @@ theorem wf_pfmerge : BodyWF Cmd.pfmerge := by
   split at hb
   · rename_i d srcs
     rw [ret_cis hb]
-    exact ciwf_set hc d (setValue_wf _ (calcSetop_nodup .union (setOf_wf (ciwf_ciAt hc d)) _))
+    exact ciwf_set hc d (update_wf _ (calcSetop_nodup .union (setOf_wf (ciwf_ciAt hc d)) _))
   · cases hb
 
 theorem wf_smove : BodyWF Cmd.smove := by
